@@ -104,7 +104,7 @@ Lemma gen_list_SetValues n l i sv src F :
   call_at F (lst_val n l) id_SetValues [VInt i; sv] =
   match set_values l i src with Ret l' => ROk (VTuple [], lst_val n l') | _ => RPanic (lst_val n l) end.
 Proof.
-  intros OP HL HF. fuel F 10. gocall. rewrite (gen_array_SetValues l i sv src) by (assumption || lia).
+  intros OP HL HF. fuel F 10. gocall. rewrite ?(proj2 (proj1 OP)). rewrite (gen_array_SetValues l i sv src) by (assumption || lia).
   destruct (set_values l i src); gorun; reflexivity.
 Qed.
 Lemma gen_list_GetValues n l i j F : (Z.of_nat (length l) < two63)%Z -> 36 <= F ->
